@@ -17,6 +17,9 @@ def units(tier):
     check_table()
     ext = {'extend.inc': [Piece(PS, r'void Sieve::_extend\(unsigned limit\)', rules=TOK)]}
     grid = [(10, 4, 0, 120), (10, 8, 0, 120), (12, 4, 0, 120), (12, 8, 0, 120)]
+    # concrete limits that take the recursive branch (sqrt(limit) >= first unsieved number, i.e. limit >= 900 from the smallest cache) over several
+    # segments: with a concrete limit the whole run is constant-folded, so these are cheap; they are single inputs, not a symbolic window
+    grid += [(10, 16, 961, 961), (10, 8, 1000, 1000), (12, 64, 1444, 1444)]
     if tier == 'thorough':
         grid += [(11, 1, 0, 100), (11, 2, 0, 100), (11, 3, 0, 110), (15, 16, 0, 200), (20, 8, 0, 200)]
         # windows of 100 limits; the last one crosses the recursion threshold sqrt(limit) >= start (limit >= 900). Each window costs 15-40 min,
